@@ -586,7 +586,11 @@ func (h *httpServerHandler) handleGet(ctx context.Context, w http.ResponseWriter
 		return
 	}
 
-	// Get session
+	// Get session. A server built without sessions has no session manager: no session id can be known to it.
+	if !h.enableSession || h.sessionManager == nil {
+		http.Error(w, "Session not found", http.StatusNotFound)
+		return
+	}
 	session, ok := h.sessionManager.getSession(sessionID)
 	if !ok {
 		http.Error(w, "Session not found", http.StatusNotFound)
